@@ -22,16 +22,24 @@ Case format sent to the model (one S-expression field, see ocaml/comp_cli.ml):
 import os, sys, re, json, subprocess, tempfile, shutil, itertools, hashlib, threading
 from concurrent.futures import ThreadPoolExecutor
 import vlib
+sys.path.insert(0, os.path.dirname(os.path.dirname(os.path.abspath(__file__))))
+import translate_cli
 
 ID = 'C12'
 COMPONENTS = ['cli']
-THEOREMS = ['C12_cli_exit_in_012', 'C12_usage_is_2', 'C12_stdout_only_on_success',
+THEOREMS = ['C12_source_constants', 'C12_cli_exit_in_012', 'C12_usage_is_2', 'C12_stdout_only_on_success',
             'C12_write_failure_is_exit1', 'C12_healthy_run_succeeds', 'C12_string_mode_is_value', 'C12_yaml_stream_shape',
             'C12_multi_files_are_visible_fields', 'C12_no_trailing_newline_only_last',
             'C12_tla_bind_by_name', 'C12_tla_bind_permutation', 'C12_ext_code_lazy', 'C12_input_failure_is_exit1', 'C12_tla_misuse_never_succeeds',
             'C12_var_split_at_first_eq', 'C12_no_panic', 'C12_needs_flush', 'C12_nonvacuous']
 ALLOWED_AXIOMS = set()
-TRANSLATORS = []
+
+
+def translate(repo):
+    return translate_cli.main(repo, os.path.join(vlib.COQ, 'Gen', 'CliConsts.v'))
+
+
+TRANSLATORS = [translate]
 BUFCAP = 1024
 NTHREADS = min(16, vlib.NCPU)
 
@@ -1085,6 +1093,11 @@ def check(run):
         'Session::eval_value evaluates the value deeply (all array items and visible object fields, object assertions)',
         'failure to write to stderr (e.g. 2>/dev/full) makes eprintln! panic and the process abort: outside the fault list of this property, recorded in notes/C12.md',
     ]
+    try:
+        translate(vlib.REPO)
+        run.add_obligation('T:glue constants translated from main.rs and cli.rs', True)
+    except Exception as e:
+        run.add_obligation('T:glue constants translated from main.rs and cli.rs', False, str(e))
     pres = vlib.prove(ID, THEOREMS, ALLOWED_AXIOMS)
     run.add_proof(pres, THEOREMS)
     model_exe = vlib.build_model('cli')
